@@ -30,7 +30,7 @@ import (
 // must fail; no frame outside the committed valid prefix may be emitted.
 
 func init() {
-	core.Register(&core.Prop{ID: "C05", Bubble: false, Gen: c05Gen, Run: c05Run})
+	core.Register(&core.Prop{ID: "C05", Bubble: false, Gen: c05Gen, Run: c05Run, Enumerate: c05Enumerate})
 }
 
 func c05Gen(r *core.Rand, tier string) any {
